@@ -778,6 +778,13 @@ def correspond(ctx):
     for i, case in enumerate(readers):
         if i % 3 or len(mism) > 12 or case["reader"].count("\n") < 3:
             continue
+        # ... and tabulated by an engine whose outputs hold their previous value where no rule fires (lock-previous): the rows
+        # are processed in the order given, repeated and unsorted rows included
+        c3 = dict(case, kind="locked", outputs=True)
+        st.count("reader-locked")
+        ok, detail = oracle(c3)
+        if not ok:
+            mism.append({"case": c3, "violation": True, "detail": detail, "what": detail})
         c2 = dict(case, consumed=1 + (i // 3) % 2)
         st.count("reader-consumed")
         ok, detail = oracle(c2)
